@@ -5,6 +5,7 @@ MPU file sink
 from __future__ import annotations
 
 import mmap
+import shutil
 from pathlib import Path
 from typing import Any
 
@@ -72,7 +73,8 @@ class MPUFileSink:
         dst = self._dst
         first, *rest = parts
         p1 = Path(first["Path"])
-        p1.rename(dst)
+        # parts may live on another file system (parts_base=), where rename fails
+        shutil.move(str(p1), str(dst))
 
         with open(dst, "ab") as f:
             for part in rest:
